@@ -1,6 +1,7 @@
 import GridVerif.Props.C14
 import GridVerif.Props.C14.Values
 import GridVerif.Props.C14.Dipole
+import GridVerif.Props.C14.Gen
 
 #print axioms GridVerif.C14.cartesian_orders_spec
 #print axioms GridVerif.C14.pure_orders_spec
@@ -10,3 +11,11 @@ import GridVerif.Props.C14.Dipole
 #print axioms GridVerif.C14.moments_entry_points1d
 #print axioms GridVerif.C14.moments_rejects
 #print axioms GridVerif.C14.dipole_spec
+#print axioms GridVerif.C14.gen_horton_eq_model
+#print axioms GridVerif.C14.gen_horton_unknown_type
+#print axioms GridVerif.C14.gen_indices_eq_rowIndex
+#print axioms GridVerif.C14.gen_moments_orders_spec
+#print axioms GridVerif.C14.gen_moments_rejects
+#print axioms GridVerif.C14.gen_moments_orders_radial_zero
+#print axioms GridVerif.C14.gen_solid_degree
+#print axioms GridVerif.C14.gen_row_lookup_correct
